@@ -191,20 +191,7 @@ def run(tier):
     # ---- (b2) the LONGEST encodings the library can emit, in every mode and chunk geometry. Whatever the library does with an
     # immediate the destination cannot hold (it emits up to 17 bytes for 'add qword [eax+ebx*8+disp32], imm40'), every path that
     # handles an instruction - plain, padding + re-encoding in chunk fitting, counting - must cope with that length.
-    mems = ["[rax]", "[rax+rbx*8+0x11223344]", "[eax+ebx*8+0x11223344]", "[r8d+r9d*8-0x11223344]", "[4*r12+0x100]", "[0x11223344]", "[rsp+r13*2+0x80]"]
-    imms = ["1", "0x7f", "0x80", "0x1122", "0x11223344", "0x80000000", "0x1122334455", "0x1122334455667788", "-1", "-0x1122334455", "0xffffffffffffffff"]
-    longl = []
-    for mn in isa.ALU + ["test", "mov"]:
-        for mm in mems:
-            for kw in ("", "byte ", "word ", "dword ", "qword "):
-                for im in imms:
-                    longl.append("%s %s%s, %s" % (mn, kw, mm, im))
-    longl += ["mov r15, 0x1122334455667788", "imul r9, [eax+ebx*8+0x11223344], 0x11223344", "imul r9w, [eax+ebx*8+0x11223344], 0x1122", "shld [r8d+r9d*8+0x11223344], r10, 0x7f",
-              "shld word [r8d+r9d*8+0x11223344], r10w, 5", "vperm2i128 ymm9, ymm10, [r8d+r9d*8+0x11223344], 0xff", "vpaddb ymm9, ymm10, [r8d+r9d*8+0x11223344]", "push 0x11223344", "push 0x1122334455",
-              "jmp far qword [r8d+r9d*8+0x11223344]", "call qword [r8d+r9d*8+0x11223344]", "movq xmm9, [r8d+r9d*8+0x11223344]", "pmulhrsw xmm9, [r8d+r9d*8+0x11223344]", "rorx r9, [r8d+r9d*8+0x11223344], 63",
-              "bextr r9, [r8d+r9d*8+0x11223344], r10", "xbegin 0x11223344", "mov word [r8d+r9d*8+0x11223344], 0x1122", "nop11", "cmovnbe r9w, [r8d+r9d*8+0x11223344]", "movzx r9w, byte [r8d+r9d*8+0x11223344]"]
-    if not full:
-        longl = rnd.sample(longl[:-20], 700) + longl[-20:]
+    longl = isa.long_lines(rnd, full)
     probe = common.run_lines(asan, [("211", l, 0) for l in longl], tag="c09l")
     cases, meta = [], []
     lens_seen = {}
